@@ -20,7 +20,24 @@ mv "$OUT/src/verif_points.json" "$OUT/verif_points_src.json"
 python3 "$HERE/engine/instrument.py" "$OUT/examples" "$REPO"/examples/*.c "$REPO"/examples/*.h || exit 3
 mv "$OUT/examples/verif_defaults.h" "$OUT/verif_defaults_examples.h"
 mv "$OUT/examples/verif_points.json" "$OUT/verif_points_examples.json"
-cat "$HERE/contracts/verif_vshr.h" "$OUT/verif_defaults_src.h" "$OUT/verif_defaults_examples.h" > "$OUT/verif_defaults.h"
+# C19: the Arduino port.  Every leaf class is extracted to a C translation unit on this run
+# (engine/arduino_extract.py: method bodies verbatim from the preprocessed portable branch), then instrumented
+# like the library.  A failure here never stops the other properties: the C19 jobs then find no TU (UNDECIDED).
+mkdir -p "$OUT/ardpre" "$OUT/arduino"
+AR="$REPO/arduino/libraries/Skinny"
+ard() { python3 "$HERE/engine/arduino_extract.py" "$AR/$1" "$AR" "$2" "$OUT/ardpre/$2.c" $3 2>>"$OUT/arduino/extract.log" || echo "$2" >> "$OUT/arduino/EXTRACTION_BREAK"; }
+for k in 128 256 384; do ard Skinny128.cpp Skinny128_$k "Skinny128 Skinny128_$k"; done
+for k in 256 384; do ard Skinny128.cpp Skinny128_${k}_Tweaked "Skinny128 Skinny128_Tweaked Skinny128_${k}_Tweaked"; done
+for k in 64 128 192; do ard Skinny64.cpp Skinny64_$k "Skinny64 Skinny64_$k"; done
+for k in 128 192; do ard Skinny64.cpp Skinny64_${k}_Tweaked "Skinny64 Skinny64_Tweaked Skinny64_${k}_Tweaked"; done
+ard Mantis8.cpp Mantis8 "Mantis8"
+ard CTR.cpp CTRCommon "CTRCommon"
+if python3 "$HERE/engine/instrument.py" "$OUT/arduino" "$OUT"/ardpre/*.c 2>>"$OUT/arduino/extract.log"; then
+  mv "$OUT/arduino/verif_defaults.h" "$OUT/verif_defaults_arduino.h"
+else
+  echo "instrument" >> "$OUT/arduino/EXTRACTION_BREAK"; : > "$OUT/verif_defaults_arduino.h"
+fi
+cat "$HERE/contracts/verif_vshr.h" "$OUT/verif_defaults_src.h" "$OUT/verif_defaults_examples.h" "$OUT/verif_defaults_arduino.h" > "$OUT/verif_defaults.h"
 python3 "$HERE/spec/gen_spec.py" "$OUT/spec_gen.h"
 cp "$HERE"/spec/spec_ref.[ch] "$OUT/"
 mkdir -p "$OUT/contracts" "$OUT/harness"
